@@ -45,20 +45,23 @@ var thoroughConfigs = []BuildConfig{
 
 // Engine is the resolved program of one build configuration.
 type Engine struct {
-	Cfg      BuildConfig
-	Dir      string
-	Fset     *token.FileSet
-	Pkgs     []*packages.Package // module packages (non-test)
-	PkgByID  map[string]*packages.Package
-	Prog     *ssa.Program
-	SSAPkgs  map[string]*ssa.Package // by import path
-	All      map[*ssa.Function]bool
-	CG       *callgraph.Graph
-	ModFuncs []*ssa.Function // every function (incl. closures) defined in the module
-	byName   map[string]*ssa.Function
-	LoadS    float64
-	SSAS     float64
-	CGS      float64
+	Cfg         BuildConfig
+	Dir         string
+	Fset        *token.FileSet
+	Pkgs        []*packages.Package // module packages (non-test)
+	PkgByID     map[string]*packages.Package
+	Prog        *ssa.Program
+	SSAPkgs     map[string]*ssa.Package // by import path
+	All         map[*ssa.Function]bool
+	CG          *callgraph.Graph
+	ModFuncs    []*ssa.Function // every function (incl. closures) defined in the module
+	byName      map[string]*ssa.Function
+	requested   map[string]bool
+	renamed     map[string]*ssa.Function
+	RenameNotes []string
+	LoadS       float64
+	SSAS        float64
+	CGS         float64
 
 	noret     map[*ssa.Function]int // 0 unknown 1 returns 2 noreturn
 	siteCache map[ssa.CallInstruction][]*ssa.Function
@@ -220,7 +223,19 @@ func (e *Engine) ScopeFuncs() []*ssa.Function {
 	return out
 }
 
-func (e *Engine) Func(name string) *ssa.Function { return e.byName[name] }
+// Func resolves a function by its key; every request is recorded (for the
+// anchor table) and a name that no longer resolves is looked up by role
+// (anchors.go).
+func (e *Engine) Func(name string) *ssa.Function {
+	if e.requested == nil {
+		e.requested = map[string]bool{}
+	}
+	e.requested[name] = true
+	if f := e.byName[name]; f != nil {
+		return f
+	}
+	return e.renamedAnchor(name)
+}
 
 func (e *Engine) pkgTypes(rel string) *types.Package {
 	path := modPath
